@@ -290,6 +290,21 @@ func rewriteFile(l *loader, pi *pkgInfo, f *ast.File) {
 	info := pi.info
 	curFunc := ""
 	hoistReceives(f)
+	// the type names time.Timer / time.Ticker follow their constructors into the simulator
+	replaceExprs(f, func(e ast.Expr) ast.Expr {
+		sel, ok := e.(*ast.SelectorExpr)
+		if !ok || (sel.Sel.Name != "Timer" && sel.Sel.Name != "Ticker") {
+			return nil
+		}
+		id, ok := sel.X.(*ast.Ident)
+		if !ok {
+			return nil
+		}
+		if pn, ok := info.Uses[id].(*types.PkgName); ok && pn.Imported().Path() == "time" {
+			return simSel(sel.Sel.Name)
+		}
+		return nil
+	})
 	var rewriteStmts func(list []ast.Stmt) []ast.Stmt
 	var visit func(n ast.Node)
 
@@ -752,12 +767,22 @@ func rewriteFile(l *loader, pi *pkgInfo, f *ast.File) {
 					x.Fun = simSel("After")
 				case isPkgSel(info, x.Fun, "time", "AfterFunc"):
 					x.Fun = simSel("AfterFunc")
+				case isPkgSel(info, x.Fun, "time", "NewTimer"):
+					x.Fun = simSel("NewTimer")
+				case isPkgSel(info, x.Fun, "time", "NewTicker"):
+					x.Fun = simSel("NewTicker")
+				case isPkgSel(info, x.Fun, "time", "Tick"):
+					x.Fun = simSel("TickChan")
 				case isPkgSel(info, x.Fun, "time", "Sleep"):
 					x.Fun = simSel("Sleep")
 				case isPkgSel(info, x.Fun, "time", "Now"):
 					x.Fun = simSel("Now")
 				case isPkgSel(info, x.Fun, "time", "Since"):
 					x.Fun = simSel("Since")
+				case isPkgSel(info, x.Fun, "context", "WithTimeout"):
+					x.Fun = simSel("WithTimeout")
+				case isPkgSel(info, x.Fun, "context", "WithDeadline"):
+					x.Fun = simSel("WithDeadline")
 				case isPkgSel(info, x.Fun, "os", "Getpid"):
 					x.Fun = simSel("Getpid")
 				case isPkgSel(info, x.Fun, "os", "Getppid"):
